@@ -101,6 +101,28 @@ def ob_invariance(ctx, D, shape, name):
     ctx.eq(f(u, reduction="sum", **kw), none.sum(), f"{name}: sum of none")
 
 
+def ob_axis_spacing(ctx, D, name, mode):
+    """A field that varies along x only: the regulariser depends on the spacing of x with the documented power and not at
+    all on the spacing of the other axes (also for mode='gaussian', whose kernels are not exact on polynomials)."""
+    import deepali.losses.functional as L
+
+    shape = (4, 5) if D == 2 else (3, 3, 5)
+    prof = ctx.reals("p", [[0.5, -1.0, 0.25, 1.5, -0.75][: shape[-1]] for _ in range(D)], nice=(-4, 4))  # (D, X)
+    u = prof.reshape((1, D) + (1,) * (D - 1) + (shape[-1],)).expand((1, D) + tuple(shape)).clone()
+    s = ctx.reals("s", [0.75, 1.25, 2.0][:D], gt=0, nice=(0.125, 8))
+    c = ctx.reals("c", 2.5, gt=0, nice=(0.25, 4))
+    f = getattr(L, name)
+    kw = dict(mode=mode, reduction="none")
+    if mode == "gaussian":
+        kw["sigma"] = 0.7
+    base = f(u, spacing=s, **kw)
+    other = torch.cat([s[:1], s[1:] * c])
+    ctx.eq(f(u, spacing=other, **kw), base, f"{name}[{mode}]: independent of the spacing of axes the field does not vary along")
+    power = {"bending_loss": 4, "curvature_loss": 4, "total_variation_loss": 1}.get(name, 2)
+    sx = torch.cat([s[:1] * c, s[1:]])
+    ctx.eq(f(u, spacing=sx, **kw), base / c ** power, f"{name}[{mode}]: spacing of x scaled by c rescales the loss by c^-{power}")
+
+
 def ob_nonneg(ctx, D, name):
     import deepali.losses.functional as L
 
@@ -253,6 +275,9 @@ def obligations(tier: str, seed: int):
             for units in ("cube", "voxel", "world"):
                 obs.append((f"inverse-consistency-D{D}-ac{int(a)}-{units}", ob_inverse_consistency, dict(D=D, a=a, units=units)))
         obs.append((f"modules-D{D}", ob_modules, dict(D=D)))
+        for name in ("diffusion_loss", "bending_loss", "divergence_loss") if D == 2 or tier == "thorough" else ("diffusion_loss",):
+            for mode in ("gaussian", FCB):
+                obs.append((f"axis-spacing-{name}-{mode}-D{D}", ob_axis_spacing, dict(D=D, name=name, mode=mode)))
     for pair in (("lam", "mu"), ("mu", "nu"), ("mu", "E"), ("lam", "nu"), ("lam", "E"), ("nu", "E")):
         obs.append((f"lame-{pair[0]}-{pair[1]}", ob_lame, dict(pair=pair)))
     return obs
